@@ -30,12 +30,17 @@ def run(tier, replay=None):
     groups = ["G_c08_fixed", "G_c08_eph", "G_c08_4", "G_c08_tcp"]
     n = 40 if tier == "quick" else 500
     total, drift, _ = transport.run_groups(v, groups, n)
+    # the schedule between Transport!Finish and Transport!Return, forced with a gate around the real driver
+    from .c05 import export
+    layouts, _ = export()
+    gate = common.harness_traces("c08gate", tier, shards=2, extra_args=["-x", "layouts=%s;port=%d" % (layouts, 28400)], timeout=1800)
+    common.validate(v, "Trace_Api", "Trace_Api.cfg", gate, lambda conj, rec: "%s:%s:%s" % (conj, rec["gate"]["scenario"], rec["gate"]["role"]))
     # the same scripts under the race detector, plus discovery while replies arrive and listener shutdown
     races = race_run(v, groups, 12 if tier == "quick" else 150)
     v.coverage["race_reports"] = len(races)
     v.coverage["rule"] = ("all interleavings of 2-3 calls in the model (exhaustive); %d simulated behaviours per group with 3-4 concurrent calls to one controller over mixed paths replayed on real sockets "
                           "(crossing visible through request tags echoed in replies; timeliness: a reply within T of being asked must be accepted however long the call queued); "
-                          "the scripts again in a -race build together with GetDevices while replies arrive and Listen being shut down. distinct = scenarios" % n)
+                          "a gate around the real driver holds call A between the transport's return and the decoding of its bytes while call B (same / other client, all 9 path pairs, bind port 0 and fixed) completes 1-4 times - each result must interpret its own reply; the scripts again in a -race build together with GetDevices while replies arrive and Listen being shut down. distinct = scenarios" % n)
     v.coverage["checker_cmd"] = "tlc MC_Transport (c08, q, XF_*); tlc MC_Discovery; tlc Trace_Transport; go build -race"
     return v.finish()
 
